@@ -34,6 +34,15 @@ class StubDA:
             setattr(d, k, v)
         return d
 
+    def pysym_merge(self, it, c, other):
+        if self.dims != other.dims or len(self.vals) != len(other.vals) or self.core != other.core:
+            return None
+        d = self.like([it.ite_any(c, a, b) for a, b in zip(self.vals, other.vals)],
+                      [it.A.ite(c, a, b) for a, b in zip(self.nan, other.nan)])
+        if self.dtype != other.dtype:
+            d.dtype = "float64"
+        return d
+
     # ---- attribute protocol used by pysym
     def pysym_getattr(self, it, st, attr):
         if attr == "dims":
@@ -235,6 +244,19 @@ class StubDA:
 
     def m_transpose(self, it, st, *dims):
         return self
+
+    def m_to_dataset(self, it, st, name=None):
+        return DatasetStub(name, self)
+
+
+class DatasetStub:
+    """xarray.Dataset contract: named variables, item assignment."""
+
+    def __init__(self, name, da):
+        self.vars = {name: da}
+
+    def pysym_setitem(self, it, st, key, v):
+        self.vars[key] = v
 
 
 def cast_value(it, st, v, src, dst):
